@@ -1,6 +1,7 @@
 import GasolVerif.Concrete
 import GasolVerif.Show
 import GasolVerif.Models.FormulaIO
+import GasolVerif.Models.Cost
 open GasolVerif
 
 def parseWords? (s : String) : Option (List Word) :=
@@ -33,6 +34,22 @@ def handle (line : String) : String :=
     | none => "error:parse"
   | ["FORMULA", raw, built, text] => Formula.handleFormula raw built text
   | ["PYEQ", f, g, py] => Formula.handlePyEq f g py
+  | ["COST", p0, b] =>
+    match parseBlock? b with
+    | some B => let c := Cost.costs (p0 == "1") B; s!"{c.gas} {c.bytes} {c.len}"
+    | none => "error:parse"
+  | ["ACCEPT", crit, p0, b₁, b₂] =>
+    match parseBlock? b₁, parseBlock? b₂ with
+    | some B, some B' =>
+      let cr := if crit == "size" then Cost.Crit.size else if crit == "length" then Cost.Crit.length else Cost.Crit.gas
+      let ci := Cost.costs (p0 == "1") B
+      let co := Cost.costs (p0 == "1") B'
+      (if Cost.acceptable cr ci co then "ok" else "bad") ++ s!" {ci.gas} {ci.bytes} {ci.len} -> {co.gas} {co.bytes} {co.len}"
+    | _, _ => "error:parse"
+  | ["IMPROVES", c, os] =>
+    match c.toInt?, ((os.splitOn ",").filter (· ≠ "")).mapM String.toInt? with
+    | some ci, some ol => if Cost.improves ci ol then "1" else "0"
+    | _, _ => "error:parse"
   | _ => "error:unknown-request"
 
 partial def loop (h : IO.FS.Stream) (out : IO.FS.Stream) : IO Unit := do
